@@ -32,13 +32,15 @@ theorem intModifier_lit (P : Prims) (o : Option Int) (loc : Loc) (s : RS) :
     a Go `int` as its `strconv.Itoa` text (`hO`; the standard one does, `stdOut_int`), every configuration
     with good delimiters, file system and environment.
 
-    Side conditions: `i` is not the name `forloop` (the loop binds `forloop` after `i`); `b - a ≤ 100000`
-    — a boundary of the MODEL (`loopItems` answers `unmodelled` for larger ranges), not of the code. -/
+    Side conditions: `i` is not the name `forloop` (the loop binds `forloop` after `i`); `b - a ≤ cfg.budget`
+    — `cfg.budget` is a parameter of the EXECUTABLE model without a counterpart in the code (beyond it `loopItems`
+    answers `unmodelled`), and it is arbitrary here: for every range there is a budget, and raising the budget never
+    changes an answer (`range_loop_any_size`, `budget_monotone_run` in `Proofs/C11.lean`). -/
 theorem for_range_source (P : Prims) (O : OutPrims) (cfg : Cfg) (fs : FS) (fuel : Nat) (line : Nat) (env : Env)
     (hO : ∀ n, O.chunks (.int .int n) = .ok [intDec n])
     (args ivar : Bytes) (a b : Int) (rev : Bool) (off lim : Option Int) (w1 w2 w3 : Ws)
     (hp : parseStatement kwLoop args = .ok (.loop ivar (.range (.lit (.int .int a)) (.lit (.int .int b))) (litMods rev off lim)))
-    (hvar : parseExprSource ivar = .ok (.var ivar)) (hnf : ivar ≠ nmForloop) (hsmall : b - a ≤ 100000)
+    (hvar : parseExprSource ivar = .ok (.var ivar)) (hnf : ivar ≠ nmForloop) (hsmall : b - a ≤ cfg.budget)
     (hg : GoodDelims (Delims.ofList cfg.delims)) (hc : Clean (Delims.ofList cfg.delims) (forPrintSrc args ivar w1 w2 w3)) :
     run P O cfg fs fuel (spell (Delims.ofList cfg.delims) (forPrintSrc args ivar w1 w2 w3)) line env =
       .ok ((selectItems rev off lim (rangeItems a b)).map decOf).flatten := by
@@ -56,7 +58,7 @@ theorem rangeItems_decs (a b : Int) (hab : a ≤ b) :
   rw [if_neg (by omega), List.map_map]
   rfl
 
-/-- **C11 (the numerals `a … b`), from source bytes.** For integers `a ≤ b` (in the `int64` range, `b - a ≤ 100000`)
+/-- **C11 (the numerals `a … b`), from source bytes.** For integers `a ≤ b` (in the `int64` range; `b - a ≤ cfg.budget`, for every budget `cfg.budget` of the executable model)
     and an identifier `i` other than `forloop`, the source
 
     `{% for i in (a..b) %}{{ i }}{% endfor %}`
@@ -69,7 +71,7 @@ theorem for_range_numerals_source (P : Prims) (O : OutPrims) (cfg : Cfg) (fs : F
     (hO : ∀ n, O.chunks (.int .int n) = .ok [intDec n])
     (ivar : Bytes) (a b : Int) (w1 w2 w3 : Ws)
     (hiv : Lexeme .rIdent ivar) (hnf : ivar ≠ nmForloop)
-    (ha : IntKind.i64.inRange a = true) (hb : IntKind.i64.inRange b = true) (hab : a ≤ b) (hsmall : b - a ≤ 100000)
+    (ha : IntKind.i64.inRange a = true) (hb : IntKind.i64.inRange b = true) (hab : a ≤ b) (hsmall : b - a ≤ cfg.budget)
     (hg : GoodDelims (Delims.ofList cfg.delims))
     (hc : Clean (Delims.ofList cfg.delims) (forPrintSrc (rangeArgs ivar a b) ivar w1 w2 w3)) :
     run P O cfg fs fuel (spell (Delims.ofList cfg.delims) (forPrintSrc (rangeArgs ivar a b) ivar w1 w2 w3)) line env =
@@ -81,7 +83,7 @@ theorem for_range_numerals_source (P : Prims) (O : OutPrims) (cfg : Cfg) (fs : F
 theorem for_range_numerals_source_std (P : Prims) (cfg : Cfg) (fs : FS) (fuel : Nat) (line : Nat) (env : Env)
     (ivar : Bytes) (a b : Int) (w1 w2 w3 : Ws)
     (hiv : Lexeme .rIdent ivar) (hnf : ivar ≠ nmForloop)
-    (ha : IntKind.i64.inRange a = true) (hb : IntKind.i64.inRange b = true) (hab : a ≤ b) (hsmall : b - a ≤ 100000)
+    (ha : IntKind.i64.inRange a = true) (hb : IntKind.i64.inRange b = true) (hab : a ≤ b) (hsmall : b - a ≤ cfg.budget)
     (hg : GoodDelims (Delims.ofList cfg.delims))
     (hc : Clean (Delims.ofList cfg.delims) (forPrintSrc (rangeArgs ivar a b) ivar w1 w2 w3)) :
     run P stdOut cfg fs fuel (spell (Delims.ofList cfg.delims) (forPrintSrc (rangeArgs ivar a b) ivar w1 w2 w3)) line env =
@@ -102,7 +104,7 @@ theorem for_range_mods_source (P : Prims) (O : OutPrims) (cfg : Cfg) (fs : FS) (
     (hiv : Lexeme .rIdent ivar) (hnf : ivar ≠ nmForloop)
     (ha : IntKind.i64.inRange a = true) (hb : IntKind.i64.inRange b = true)
     (hoff : ∀ o, off = some o → IntKind.i64.inRange o = true) (hlim : ∀ l, lim = some l → IntKind.i64.inRange l = true)
-    (hsmall : b - a ≤ 100000)
+    (hsmall : b - a ≤ cfg.budget)
     (hg : GoodDelims (Delims.ofList cfg.delims))
     (hc : Clean (Delims.ofList cfg.delims) (forPrintSrc (rangeArgs ivar a b ++ modsText rev off lim) ivar w1 w2 w3)) :
     run P O cfg fs fuel (spell (Delims.ofList cfg.delims) (forPrintSrc (rangeArgs ivar a b ++ modsText rev off lim) ivar w1 w2 w3))
@@ -175,5 +177,20 @@ theorem for_var_named_forloop (P : Prims) (fs : FS) (env : Env) :
     Env.get_set_same, GoVal.unwrap, GoVal.isNil, GoVal.toLiquid, intOut, forloopRec, Status.wrap, statusToProg, Res.bind, List.range,
     List.range.loop]
 
-/-- the bound `b - a ≤ 100000` is a boundary of the model, not of the code: beyond it the model gives no answer -/
-example : loopItems (.range 0 100001) = .unmodelled "huge range" := by rfl
+/-- the budget is a parameter of the executable model, not of the code: beyond it the model gives no answer — under the
+    driver's default the range `(0..100001)` has none, under any budget from 100001 on it has (`range_loop_any_size`) -/
+example : loopItems ({} : Cfg).budget (.range 0 100001) = .unmodelled "huge range" := by rfl
+example : ∃ xs, loopItems 100001 (.range 0 100001) = .ok xs := ⟨_, rfl⟩
+
+/-- non-vacuity of `budget_monotone`: `{% for i in (8..11) %}{{ i }}{% endfor %}` renders `891011` under the budget 3 (the
+    smallest that lets the range through), and therefore under every larger budget — in every value layer and environment -/
+example (P : Prims) (fs : FS) (env : Env) (m : Int) (hm : 3 ≤ m) :
+    run P stdOut { budget := m } fs 1 (spell Delims.default (forPrintSrc (rangeArgs [105] 8 11) [105] Ws.std Ws.std Ws.std)) 1 env =
+      .ok [56, 57, 49, 48, 49, 49] := by
+  have h0 : run P stdOut { budget := 3 } fs 1 (spell Delims.default (forPrintSrc (rangeArgs [105] 8 11) [105] Ws.std Ws.std Ws.std)) 1 env =
+      .ok [56, 57, 49, 48, 49, 49] :=
+    for_range_numerals_source_std P { budget := 3 } fs 1 1 env [105] 8 11 Ws.std Ws.std Ws.std lexeme_i (by decide) (by decide)
+      (by decide) (by decide) (by decide) (by decide) (by decide)
+  have h := budget_monotone P stdOut { budget := 3 } fs 1 _ 1 env m hm (by rw [h0]; intro w hw; cases hw)
+  rw [h0] at h
+  exact h
